@@ -66,6 +66,17 @@ def check_strength(case):
                 out.fail("contribution_negative", "%s contribution %r < 0 for phase %s at r=%r (ri=%r) Ls=%r" % (nm, float(arr[tuple(idx)]), phname, r[i], p["ri"], Ls[i]), branch=nm, subcore=bool(2 * r[i] < p["ri"]))
         comb, cmp_, parts = sm.combineStrengthContributions(w.copy(), s.copy(), oro.copy(), returnComparison=True)
         comb = np.asarray(comb, dtype=float)
+        # the same contribution arrays combined a second time (another Taylor factor or exponent, the comparison flag): the
+        # contributions are the caller's, finite ones must come back untouched and give the same strength again
+        if w.size and s.size and np.all(np.isfinite(w)) and np.all(np.isfinite(s)) and np.all(np.isfinite(oro)):
+            w2, s2, o2 = w.copy(), s.copy(), oro.copy()
+            c_first = np.asarray(sm.combineStrengthContributions(w2, s2, o2), dtype=float)
+            c_again = np.asarray(sm.combineStrengthContributions(w2, s2, o2), dtype=float)
+            if w2.tobytes() != w.tobytes() or s2.tobytes() != s.tobytes() or o2.tobytes() != oro.tobytes():
+                out.fail("inputs_modified", "combineStrengthContributions modified the (finite) contribution arrays passed to it (phase %s)" % phname, what="contributions")
+            elif not np.array_equal(c_first, c_again):
+                out.fail("not_min_of_branches", "phase %s: combining the same contributions twice gives %r, then %r" % (phname, c_first[:3].tolist(), c_again[:3].tolist()), what="repeat")
+            out.label("contributions_combined_twice")
         e = p["e1"]
         wsum = np.zeros(len(r)) if w.shape[0] == 0 else np.power(np.sum(np.power(np.clip(w, 0, None), e), axis=0), 1 / e)
         ssum = np.zeros(len(r)) if s.shape[0] == 0 else np.power(np.sum(np.power(np.clip(s, 0, None), e), axis=0), 1 / e)
